@@ -47,6 +47,15 @@ CLAIMED = {
    note=TRUST + 'h5py exact + closed world; bounds abstract with the round-trip axiom (C09: proved for Union/basic classes, bounded for NautilusBound/NeuralBound); int(str(x)) = x. The final '
         'step "equal continuation state => bit-identical continuation" is the determinism argument of C11 and is not machine-checked; constructor arguments are given again on resume.',
    tech='contract-based deductive verification: write;update;write and write;resume compositions over the HDF5 map theory, z3', ref='7 C05'),
+ 'C06': dict(
+   text='Deductive proof over a ghost file system on the real bodies of Sampler.write and Sampler.write_shell_update (the only two functions that open a file for writing; resume opens '
+        'only the checkpoint path read-only - syntactic obligations): after EVERY file-system event (open for writing, copy start/end, close, rename, unlink) - and hence at every '
+        'instant, because a non-atomic primitive turns its target into the torn state as its first effect - the checkpoint path holds either the complete state it held at entry or the '
+        'complete new state, and is never absent once it existed; on normal exit the new state is committed and no file is left open.',
+   note=TRUST + 'Assumed contracts of the file system: os.replace (POSIX rename) and unlink are atomic, h5py touches only the file it opened, close() completes the file; process kill, not '
+        'power loss (no fsync reasoning). Bounded leg: a child process is killed before every k-th source line of both writers after a first checkpoint exists; the checkpoint must exist, '
+        'load, be internally consistent and continue.',
+   tech='contract-based deductive verification with ghost file-system state (crash invariant at every event)', ref='7 C06'),
  'C09': dict(
    text='Deductive proof by symbolic execution of the real write followed by the real read on an HDF5 group model, per class: UnitCube, Ellipsoid, PhaseShift, '
         'UnitCubeEllipsoidMixture (all three cube/ellipsoid shapes) and Union (restricted to the unit cube or not; any number of members, any split/trim/sampling state, members abstract): '
